@@ -23,27 +23,27 @@ import (
 )
 
 type skyLog struct {
-	Short  string
-	Prefix string // https://host[/path]
-	Host   string
-	Path   string // "" or "/b2026"
-	D      *DiskLog
+	Short   string
+	Prefix  string // https://host[/path]
+	Host    string
+	Path    string // "" or "/b2026"
+	D       *DiskLog
 	Staging bool
 }
 
 type skyFixture struct {
-	Base    string
-	Port    int
-	Logs    []*skyLog
-	WitDir  string
-	WitHost string
-	WitPath string
-	Wit     *WitEnv
-	WitLogs []*WitLog
-	WitRun  *c15Run
-	Canary  string
-	cmd     *exec.Cmd
-	logf    *os.File
+	Base       string
+	Port       int
+	Logs       []*skyLog
+	WitDir     string
+	WitHost    string
+	WitPath    string
+	Wit        *WitEnv
+	WitLogs    []*WitLog
+	WitRun     *c15Run
+	Canary     string
+	cmd        *exec.Cmd
+	logf       *os.File
 	WitStaging bool
 }
 
